@@ -404,7 +404,7 @@ func init() {
 		NotDecided:  "assignment semantics, numeric conversion 'whenever the value fits' (the generated unfolders convert unchecked by design), fields not mentioned staying untouched, the generic interface{} target's value. Those need execution against a reference.",
 		Assumptions: []string{"a method that only returns a package-level error is a rejection; anything else is treated as handling the event"},
 		TrustedBase: baseTrusted,
-		Rules:       []RuleRun{{"R12", R12}, {"R22", R22("gotype")}},
+		Rules:       []RuleRun{{"R12", R12}, {"R22", R22("gotype")}, {"R23", R23}},
 		LevelText:   "Structural necessary conditions decided exhaustively over the method sets of all unfolder state types (go/types) and the bodies of the resolved methods (SSA): a missing or rejecting method makes some well-formed stream fail. This is the part of C13 that is visible in the shape of the code; the value-level part is not decided.",
 		Technique:   "method-set completeness and sibling agreement over go/types method sets; rejecting-method classification on SSA; forwarder number-class check",
 		DesignRef:   "DESIGN.md section 2 R12, section 3 C13",
